@@ -47,6 +47,12 @@ func install(u *e2e.Upstream) *gate {
 		g.ctxDone = append(g.ctxDone, r.Context().Done())
 		g.mu.Unlock()
 		switch {
+		case r.Header.Get("Upgrade") != "" && strings.Contains(r.URL.Path, "silent"):
+			// an upgrade request the upstream does not answer (no 101 yet)
+			select {
+			case <-r.Context().Done():
+			case <-time.After(60 * time.Second):
+			}
 		case r.Header.Get("Upgrade") != "":
 			// exec / attach / port-forward: switch protocols, then hold the stream open until the peer goes away
 			conn, buf, err := w.(http.Hijacker).Hijack()
@@ -247,6 +253,27 @@ func scenario(c *ev.Check, removal, phase string) {
 			c.EngineError(label + ": the victim stream could not be opened")
 			return
 		}
+	case "upgrade waiting for 101":
+		conn, err := net.DialTimeout("tcp", r.GW.Listener.Addr().String(), 20*time.Second)
+		if err != nil {
+			c.EngineError(label + ": dial: " + err.Error())
+			return
+		}
+		defer conn.Close()
+		_, _ = conn.Write([]byte("POST /api/v1/namespaces/ns/pods/silent/exec?command=sh HTTP/1.1\r\nHost: a\r\nConnection: Upgrade\r\nUpgrade: SPDY/3.1\r\nX-Stream-Protocol-Version: v4.channel.k8s.io\r\nContent-Length: 0\r\n\r\n"))
+		deadline := time.Now().Add(20 * time.Second)
+		arrived := false
+		for time.Now().Before(deadline) && !arrived {
+			g1.mu.Lock()
+			arrived = len(g1.ctxDone) > 0
+			g1.mu.Unlock()
+			time.Sleep(2 * time.Millisecond)
+		}
+		if !arrived {
+			c.EngineError(label + ": the upgrade request did not reach the upstream")
+			return
+		}
+		upgraded = conn
 	case "upgraded stream":
 		conn, err := net.DialTimeout("tcp", r.GW.Listener.Addr().String(), 20*time.Second)
 		if err != nil {
@@ -344,6 +371,14 @@ func scenario(c *ev.Check, removal, phase string) {
 	case "streaming":
 		if !victim.endsWithin(prompt) {
 			viol("in-flight-stream-left-hanging", "the watch on the removed endpoint did not end within %v", prompt)
+		}
+	case "upgrade waiting for 101":
+		// the client must get an answer (an error status) or see its connection end
+		_ = upgraded.SetReadDeadline(time.Now().Add(prompt))
+		b := make([]byte, 16)
+		n, err := upgraded.Read(b)
+		if ne, ok := err.(net.Error); n == 0 && ok && ne.Timeout() {
+			viol("upgrade-request-left-hanging", "an upgrade (exec-like) request waiting for the removed endpoint's answer is still hanging %v after the removal", prompt)
 		}
 	case "upgraded stream":
 		// the client side of the exec-like session must see its connection end
@@ -654,7 +689,7 @@ func main() {
 		"'health probing stops' is decided twice: on the removed endpoint's context being cancelled, and (lifecycle scenarios) on the probes that actually arrive at the stub upstream in the 600 ms after the removal with 10 ms probe loops: more than 3 arrivals = not stopped (a cancelled loop can deliver at most the probe in flight, the buffered token and one racing tick, whatever the timing; a live loop delivers about 60)",
 	}
 	removals := []string{"delete cluster", "remove endpoint e1", "delete and re-create cluster"}
-	phases := []string{"not issued", "blocked before headers", "streaming", "upgraded stream", "completed"}
+	phases := []string{"not issued", "blocked before headers", "streaming", "upgrade waiting for 101", "upgraded stream", "completed"}
 	var tasks []ev.Task
 	for _, rm := range removals {
 		for _, ph := range phases {
